@@ -88,6 +88,23 @@ fn main() {
                 }
             }
         }
+        "dump" => {
+            // debugging aid: run the ops of a tree-shaped case one by one and print which pixels each changes
+            let v = load_replay(&args[2]);
+            let c = &v["case"];
+            let w = c["w"].as_i64().unwrap() as i32;
+            let h = c["h"].as_i64().unwrap() as i32;
+            let init: Vec<u32> = serde_json::from_value(c["init"].clone()).unwrap_or_default();
+            let nodes: Vec<rqv::tree::Node> = serde_json::from_value(c["nodes"].clone()).expect("case.nodes");
+            let mut dt = rqv::scene::new_target(w, h, &init);
+            for (k, op) in rqv::tree::flat(&nodes).iter().enumerate() {
+                let before = dt.get_data().to_vec();
+                rqv::scene::apply(&mut dt, op);
+                let after = dt.get_data();
+                let ch: Vec<String> = (0..before.len()).filter(|i| before[*i] != after[*i]).take(12).map(|i| format!("({},{}) {:#010x}->{:#010x}", i as i32 % w, i as i32 / w, before[i], after[i])).collect();
+                println!("#{} {} idle={} changed: {}", k, op.kind(), dt.verif_rasterizer_idle(), ch.join(" "));
+            }
+        }
         "run" => {
             if args.len() < 4 {
                 usage();
